@@ -62,3 +62,63 @@ Definition uuid_agree (s : list Z) (py : option Z) : bool :=
   | None, Some _ => negb (uuid_simple s)
   | None, None => true
   end.
+
+(* ================= dates: the extended calendar form YYYY-MM-DD ================= *)
+(* ---------- decimal digits of fixed width: '%0<w>d' % n ---------- *)
+Definition decdigit (d : Z) : Z := 48 + d.
+Definition decval (c : Z) : option Z := if (48 <=? c) && (c <=? 57) then Some (c - 48) else None.
+
+Fixpoint to_dec (w : nat) (n : Z) : list Z :=
+  match w with
+  | O => []
+  | S w' => to_dec w' (n / 10) ++ [decdigit (n mod 10)]
+  end.
+
+Fixpoint of_dec (acc : Z) (s : list Z) : option Z :=
+  match s with
+  | [] => Some acc
+  | c :: s' => match decval c with Some d => of_dec (10 * acc + d) s' | None => None end
+  end.
+
+(* ---------- the proleptic Gregorian calendar as datetime.date has it ---------- *)
+Definition is_leap (y : Z) : bool := (y mod 4 =? 0) && (negb (y mod 100 =? 0) || (y mod 400 =? 0)).
+
+Definition days_in_month (y m : Z) : Z :=
+  if m =? 2 then (if is_leap y then 29 else 28)
+  else if (m =? 4) || (m =? 6) || (m =? 9) || (m =? 11) then 30 else 31.
+
+Definition days_before_month (y m : Z) : Z :=
+  nth (Z.to_nat m) [0; 0; 31; 59; 90; 120; 151; 181; 212; 243; 273; 304; 334] 0
+  + (if (2 <? m) && is_leap y then 1 else 0).
+
+Definition days_before_year (y : Z) : Z :=
+  let p := y - 1 in p * 365 + p / 4 - p / 100 + p / 400.
+
+(* date(y, m, d).toordinal() *)
+Definition ymd2ord (y m d : Z) : Z := days_before_year y + days_before_month y m + d.
+
+Definition valid_ymd (y m d : Z) : bool :=
+  (1 <=? y) && (y <=? 9999) && (1 <=? m) && (m <=? 12) && (1 <=? d) && (d <=? days_in_month y m).
+
+(* date(y, m, d).isoformat() = '%04d-%02d-%02d' *)
+Definition date_iso (y m d : Z) : list Z := to_dec 4 y ++ dash :: to_dec 2 m ++ dash :: to_dec 2 d.
+
+(* date.fromisoformat restricted to the extended calendar form YYYY-MM-DD (what isoformat writes): whenever it
+   answers, fromisoformat answers the same; the basic form, week dates and non-ASCII digits are left to the oracle *)
+Definition date_parse (s : list Z) : option (Z * Z * Z) :=
+  if Nat.eqb (length s) 10 then
+    if (nth 4 s 0 =? dash) && (nth 7 s 0 =? dash) then
+      match of_dec 0 (firstn 4 s), of_dec 0 (firstn 2 (skipn 5 s)), of_dec 0 (skipn 8 s) with
+      | Some y, Some m, Some d => if valid_ymd y m d then Some (y, m, d) else None
+      | _, _, _ => None
+      end
+    else None
+  else None.
+
+Definition date_agree (s : list Z) (py : option Z) : bool :=
+  match date_parse s, py with
+  | Some (y, m, d), Some n => ymd2ord y m d =? n
+  | Some _, None => false
+  | None, _ => true
+  end.
+
